@@ -596,6 +596,17 @@ func (s Sink) Discharged() (bool, string) {
 		if strings.HasPrefix(op, "const:") {
 			return true, "constant divisor"
 		}
+		if v, ok := evalConstAtom(op); ok && v != 0 {
+			return true, "constant divisor (folded)"
+		}
+		// max(x, K) with K >= 1 is never zero for unsigned or non-negative operands
+		if strings.HasPrefix(op, "call max(") {
+			for _, a := range callArgs(op) {
+				if k, ok := constOf(a); ok && k >= 1 {
+					return true, "divisor is max(…, " + a + ")"
+				}
+			}
+		}
 		for _, c := range s.Conds {
 			o, other, ok := orient(c, op)
 			if ok && ((o == "!=" && other == "const:0") || (o == ">" && strings.HasPrefix(other, "const:")) || (o == ">=" && other != "const:0" && strings.HasPrefix(other, "const:"))) {
@@ -787,4 +798,81 @@ func minBoundedBy(v ssa.Value, bound int64) bool {
 		}
 	}
 	return false
+}
+
+// evalConstAtom evaluates an atom built only from integer constants, parentheses and + - * / (as the
+// provenance engine renders an unfolded constant expression).
+func evalConstAtom(a string) (int64, bool) {
+	pos := 0
+	var expr func() (int64, bool)
+	skip := func() {
+		for pos < len(a) && a[pos] == ' ' {
+			pos++
+		}
+	}
+	var operand func() (int64, bool)
+	operand = func() (int64, bool) {
+		skip()
+		if pos < len(a) && a[pos] == '(' {
+			pos++
+			v, ok := expr()
+			skip()
+			if !ok || pos >= len(a) || a[pos] != ')' {
+				return 0, false
+			}
+			pos++
+			return v, true
+		}
+		if strings.HasPrefix(a[pos:], "const:") {
+			pos += len("const:")
+			start := pos
+			for pos < len(a) && (a[pos] >= '0' && a[pos] <= '9') {
+				pos++
+			}
+			if start == pos {
+				return 0, false
+			}
+			var v int64
+			fmt.Sscanf(a[start:pos], "%d", &v)
+			return v, true
+		}
+		return 0, false
+	}
+	expr = func() (int64, bool) {
+		v, ok := operand()
+		if !ok {
+			return 0, false
+		}
+		for {
+			skip()
+			if pos >= len(a) || a[pos] == ')' {
+				return v, true
+			}
+			opc := a[pos]
+			if opc != '+' && opc != '-' && opc != '*' && opc != '/' {
+				return 0, false
+			}
+			pos++
+			w, ok := operand()
+			if !ok {
+				return 0, false
+			}
+			switch opc {
+			case '+':
+				v += w
+			case '-':
+				v -= w
+			case '*':
+				v *= w
+			case '/':
+				if w == 0 {
+					return 0, false
+				}
+				v /= w
+			}
+		}
+	}
+	v, ok := expr()
+	skip()
+	return v, ok && pos == len(a)
 }
